@@ -446,3 +446,32 @@ func FullFieldOwner(fa *ssa.FieldAddr) *types.Named {
 	}
 	return st
 }
+
+// Results returns the values a Return instruction returns, looking through the result spilling go/ssa applies to
+// functions that contain a defer (the return statement stores into the result variables, runs the deferred calls
+// and returns the re-loaded variables): a result that is a load of a local variable stored earlier in the same
+// block is replaced by the value stored.
+func Results(r *ssa.Return) []ssa.Value {
+	out := make([]ssa.Value, len(r.Results))
+	for i, v := range r.Results {
+		out[i] = v
+		u, ok := v.(*ssa.UnOp)
+		if !ok || u.Op != token.MUL {
+			continue
+		}
+		al, ok := u.X.(*ssa.Alloc)
+		if !ok {
+			continue
+		}
+		b := r.Block()
+		for _, in := range b.Instrs {
+			if in == ssa.Instruction(u) {
+				break
+			}
+			if st, ok := in.(*ssa.Store); ok && st.Addr == ssa.Value(al) {
+				out[i] = st.Val
+			}
+		}
+	}
+	return out
+}
